@@ -7,6 +7,7 @@ option combinations, user argument lists (spaces, quotes, non-UTF-8 bytes, leadi
 child result encoding, and compared with these decisions.
 -/
 import CambrianModel.Model.Process
+import CambrianModel.Lemmas.LaunchLemmas
 namespace Cambrian.Props
 open Cambrian Cambrian.Proc
 
@@ -76,5 +77,21 @@ example : (cliM { algoConfOk := true, termDurOk := true, outDir := some (true, t
                   guessJsonOk := true, run := .ok }) =
     { exitOk := true, stdoutLines := 1, launched := true, outDirRemoved := true, outDirCreated := true,
       diagFiles := false, summaryFile := true } := by decide
+
+/-! ### termination criteria (`termination::compile`) -/
+
+/-- a list of termination criteria is accepted exactly when no kind is given twice (conflicting options are
+    rejected before anything is launched) ... -/
+theorem C16_criteria_conflict (cs : List Launch.Crit) :
+    (Launch.compile cs).isSome = true ↔ (cs.map Launch.Crit.kind).Nodup :=
+  Launch.compile_isSome cs
+
+/-- ... and the evaluation budget in force is the one that was given -/
+theorem C16_criteria_budget (cs : List Launch.Crit) (c : Launch.Compiled) (h : Launch.compile cs = some c) (n : Nat) :
+    c.maxEval = some n ↔ Launch.Crit.numEval n ∈ cs :=
+  Launch.compile_maxEval cs c h n
+
+example : Launch.compile [.numEval 5, .signal, .numEval 7] = none ∧
+          Launch.compile [.signal, .numEval 5] = some { maxEval := some 5, onSignal := true } := by decide
 
 end Cambrian.Props
